@@ -42,6 +42,8 @@ def run(chk):
             rule_arms(chk, bp)
     if not rule_bindings_eval(chk):
         rule_peel(chk)
+    import c02
+    c02.rule_simplify_cbuffers_eval(chk, prefix="C18.cbuffers")     # Metal-only pass: every cbuffer keeps a global with its name and slot
     import c05
     # shared table agreement
     tabs = {}
